@@ -20,6 +20,7 @@ pub fn phases(tier: Tier) -> Vec<Phase> {
         Phase::new("programs: kind-agnostic expressions of <=2 constructors x 27 contexts, all statement orders x 3 namings", json!({"kind":"programs","space":"agnostic","k":2})),
         Phase::new("programs: fragments F5 (scoping) and F6 (recursion, 2 declarations), all statement orders x 3 namings", json!({"kind":"programs","space":"frags"})),
     ];
+    v.push(Phase::new("programs: kind-agnostic expressions of 3 constructors in the never-applied-function context, all statement orders x 3 namings", json!({"kind":"programs","space":"agnostic","k":3,"only_context":26})));
     if tier == Tier::Thorough {
         v.push(Phase::new("programs: kind-agnostic expressions of 3 constructors x 27 contexts, all statement orders x 3 namings", json!({"kind":"programs","space":"agnostic","k":3})));
     }
@@ -193,10 +194,14 @@ pub fn run(phase: &Phase, sink: &mut Sink) {
             let k = phase.param["k"].as_u64().unwrap() as usize;
             let all = space::agnostic_exprs(k);
             let sizes: Vec<usize> = if k == 2 { vec![1, 2] } else { vec![k] };
+            let only = phase.param["only_context"].as_u64().map(|c| c as usize);
             let mut idx = 0u64;
             for s in sizes {
                 for e in all[s].iter() {
                     for c in 0..space::N_CONTEXTS {
+                        if only.map_or(false, |o| o != c) {
+                            continue;
+                        }
                         if sink.mine(idx) {
                             if sink.expired() {
                                 return;
